@@ -322,10 +322,42 @@ func RunDialogue(d Dialogue, h *Hooks) (mon.Result, *Info) {
 	return res, info
 }
 
+// LineOf is a credential as a line-oriented device sees it: the bytes up to the first return
+// character (a credential that ends in a return character makes the device see the credential and
+// then an empty line).
+func LineOf(cred string) string {
+	if i := strings.IndexAny(cred, "\r\n"); i >= 0 {
+		return cred[:i]
+	}
+	return cred
+}
+
+// TrailingReturnSafe reports whether a credential of this kind may end in a return character
+// without changing what the plan means: no prompt of that kind is directly followed by another
+// credential prompt (which the extra empty line would answer).
+func TrailingReturnSafe(d *Dialogue, kind string) bool {
+	for i, s := range d.Steps {
+		if s.Kind != kind {
+			continue
+		}
+		for j := i + 1; j < len(d.Steps); j++ {
+			switch d.Steps[j].Kind {
+			case KBanner:
+				continue
+			case KUser, KPassword, KPassphrase:
+				return false
+			}
+			break
+		}
+	}
+	return true
+}
+
 // checkInputs judges what the device received during Open: credentials only in their own state, at
 // most twice each, nothing else but returns, nothing typed at the shell.
 func checkInputs(d *Dialogue, devLog []Rec, shellLines []devsim.LineRec, shellPending, pending, devState string) (key, msg string) {
 	count := map[string]int{}
+	user, password, passphrase := LineOf(d.User), LineOf(d.Password), LineOf(d.Passphrase)
 	for _, rec := range devLog {
 		if rec.State == StShell || rec.State == StNetconf {
 			continue
@@ -334,11 +366,11 @@ func checkInputs(d *Dialogue, devLog []Rec, shellLines []devsim.LineRec, shellPe
 		switch rec.Line {
 		case "":
 			continue // a bare return
-		case d.User:
+		case user:
 			which, wantState = "user", StWantUser
-		case d.Password:
+		case password:
 			which, wantState = "password", StWantPass
-		case d.Passphrase:
+		case passphrase:
 			which, wantState = "passphrase", StWantPhrase
 		default:
 			return "c10/unexpected-input:" + rec.State, fmt.Sprintf("device received the line %q in state %s: neither a credential nor a return", rec.Line, rec.State)
@@ -355,11 +387,11 @@ func checkInputs(d *Dialogue, devLog []Rec, shellLines []devsim.LineRec, shellPe
 	for _, l := range shellLines {
 		switch l.Line {
 		case "":
-		case d.User:
+		case user:
 			return "c10/credential-in-wrong-state:user@shell", fmt.Sprintf("the user name was typed at the shell prompt during Open (login log: %v)", devLog)
-		case d.Password:
+		case password:
 			return "c10/credential-in-wrong-state:password@shell", fmt.Sprintf("the password was typed at the shell prompt during Open (login log: %v)", devLog)
-		case d.Passphrase:
+		case passphrase:
 			return "c10/credential-in-wrong-state:passphrase@shell", fmt.Sprintf("the passphrase was typed at the shell prompt during Open (login log: %v)", devLog)
 		default:
 			return "c10/unexpected-input:shell", fmt.Sprintf("the shell received %q during Open", l.Line)
